@@ -201,8 +201,78 @@ impl Sub for KeyBytes {
     }
 }
 
+// ------------------------------------------------------------------ run-time selection of seeds
+
+/// Features of a seed's candidate loop under the CURRENT code (replayed through the hooks, every
+/// seed on a thread of its own): how close a candidate's Gram-Schmidt norm comes to the acceptance
+/// threshold, how many candidates in a row have a non-invertible f, how many candidates are
+/// rejected before one passes the cheap tests. Only selects inputs.
+fn candidate_features(n: usize, seed: [u8; 32]) -> (f64, u32, u32) {
+    use falcon_rust::verif_hooks::keygen_parts as kp;
+    use rand::SeedableRng;
+    let bound = 1.3689f64 * 12289.0;
+    let lim = (1i64 << (params(n).fg_bits - 1)) - 1;
+    let mut rng = rand::rngs::StdRng::from_seed(seed);
+    let (mut closest, mut run, mut longest_run, mut rejected) = (f64::INFINITY, 0u32, 0u32, 0u32);
+    for _ in 0..200 {
+        let f = kp::gen_poly(n, &mut rng);
+        let g = kp::gen_poly(n, &mut rng);
+        if f.iter().chain(g.iter()).any(|x| (*x as i64).abs() > lim) {
+            rejected += 1;
+            run = 0;
+            continue;
+        }
+        if zq::evaluate_at_roots(&crate::util::to_i64(&f)).iter().any(|&x| x == 0) {
+            rejected += 1;
+            run += 1;
+            longest_run = longest_run.max(run);
+            continue;
+        }
+        run = 0;
+        let gamma = kp::gram_schmidt_norm_squared(&f, &g);
+        closest = closest.min((gamma - bound).abs());
+        if gamma <= bound {
+            break;
+        }
+        rejected += 1;
+    }
+    (closest, longest_run, rejected)
+}
+
+fn selected_seeds(env: &Env, n: usize, count: usize, keep: usize) -> Vec<KeyCase> {
+    let seeds = api::seed_list(env.seed, 0x5E1EC7 ^ n as u64, count);
+    let next = std::sync::atomic::AtomicUsize::new(0);
+    let rows = std::sync::Mutex::new(Vec::with_capacity(count));
+    std::thread::scope(|sc| {
+        for _ in 0..env.workers.max(1) {
+            sc.spawn(|| loop {
+                let i = next.fetch_add(1, std::sync::atomic::Ordering::Relaxed);
+                if i >= seeds.len() {
+                    break;
+                }
+                let seed = seeds[i];
+                let r = std::thread::scope(|one| one.spawn(move || no_panic(|| candidate_features(n, seed))).join());
+                if let Ok(Ok(f)) = r {
+                    rows.lock().unwrap().push((f, seed));
+                }
+            });
+        }
+    });
+    let mut rows = rows.into_inner().unwrap();
+    let mut picked: Vec<[u8; 32]> = vec![];
+    rows.sort_by(|a, b| a.0 .0.partial_cmp(&b.0 .0).unwrap());
+    picked.extend(rows.iter().take(keep).map(|r| r.1));
+    rows.sort_by_key(|r| std::cmp::Reverse(r.0 .1));
+    picked.extend(rows.iter().take(keep).map(|r| r.1));
+    rows.sort_by_key(|r| std::cmp::Reverse(r.0 .2));
+    picked.extend(rows.iter().take(keep).map(|r| r.1));
+    picked.sort();
+    picked.dedup();
+    picked.into_iter().map(|s| KeyCase { n, seed: seed_hex(&s), gram_schmidt: false }).collect()
+}
+
 const META: Meta = Meta {
-    rule: "proptest (variant, 32-byte seed) with random seeds plus all-zero, all-0xFF and single-bit seeds; each case runs the whole key generation and checks, on the secret basis read through the hook and on the public/secret key bytes: f G - g F = q exactly (i64 schoolbook), f(psi^(2k+1)) != 0 mod q at every root, h f = g mod q with h parsed from the public-key bytes, every tree leaf in [sigma_min, sigma_max] (relative slack 1e-9 for rounding), the same on the key decoded from its own bytes, and on a subset the sorted leaves equal sigma/||b~_i|| from a plain Gram-Schmidt of the 2n x 2n basis (rows in bit-reversed rotation order) within 1e-6 with max ||b~_i|| <= 1.17 sqrt(q). The same invariants hold for keys made by SecretKey::generate() (seed from the operating system; a failing key is written out as its two encodings and replayed through the byte-level checks: G recomputed as g F / f mod q). Every distinct (variant, seed) or key is non-trivial (key generation always runs the whole pipeline).",
+    rule: "proptest (variant, 32-byte seed) with random seeds plus all-zero, all-0xFF and single-bit seeds; each case runs the whole key generation and checks, on the secret basis read through the hook and on the public/secret key bytes: f G - g F = q exactly (i64 schoolbook), f(psi^(2k+1)) != 0 mod q at every root, h f = g mod q with h parsed from the public-key bytes, every tree leaf in [sigma_min, sigma_max] (relative slack 1e-9 for rounding), the same on the key decoded from its own bytes, and on a subset the sorted leaves equal sigma/||b~_i|| from a plain Gram-Schmidt of the 2n x 2n basis (rows in bit-reversed rotation order) within 1e-6 with max ||b~_i|| <= 1.17 sqrt(q). On top of the committed corpus of hunted seeds, seeds are selected at run time through the hooks, under the code being checked (Gram-Schmidt norm closest to the acceptance threshold, longest run of non-invertible candidates, most rejected candidates). The same invariants hold for keys made by SecretKey::generate() (seed from the operating system; a failing key is written out as its two encodings and replayed through the byte-level checks: G recomputed as g F / f mod q). Every distinct (variant, seed) or key is non-trivial (key generation always runs the whole pipeline).",
     assumptions: &[
         "oracle: exact integer arithmetic (refimpl::lattice, refimpl::zq), specification parameters (refimpl::params), plain modified Gram-Schmidt in f64",
         "the hook accessors return the in-memory basis and tree leaves unchanged",
@@ -236,6 +306,13 @@ pub fn run(env: &Env, replay: Option<&Path>) -> i32 {
         });
         drive(env, &Trapdoor, env.tier.pick(128, 5000), &mut report);
         drive(env, &NaturalKey, env.tier.pick(16, 400), &mut report);
+        // seeds selected at run time, under the code being checked: Gram-Schmidt norm closest to the
+        // threshold, longest run of non-invertible candidates, most rejected candidates
+        let (scan512, scan1024, keep) = env.tier.pick((1500usize, 300usize, 2usize), (40_000, 8_000, 8));
+        let mut picked = selected_seeds(env, 512, scan512, keep);
+        picked.extend(selected_seeds(env, 1024, scan1024, (keep / 2).max(1)));
+        report.extra.insert("run_time_selection".into(), json!({"seeds_scanned_512": scan512, "seeds_scanned_1024": scan1024, "kept": picked.len()}));
+        drive_enumerated(env, &Trapdoor, picked.into_iter(), &mut report);
         h.join().expect("Gram-Schmidt side thread")
     });
     report.merge(side);
